@@ -93,7 +93,10 @@ func decodeVia(entry int, in []byte, tm map[string]reflect.Type) (isErr bool) {
 			}
 		}
 	case 4:
-		_, err = hessian.NewSerializer(tm, nil).ToObject(in)
+		// (the instance goes on to serve further messages, whatever this one was)
+		s := hessian.NewSerializer(tm, nil)
+		_, err = s.ToObject(in)
+		s.ToObject([]byte{0x90})
 	case 5:
 		s := hessian.NewSerializer(tm, nil)
 		_, err = s.ReadFrom(&countingReader{b: in})
